@@ -161,10 +161,24 @@ theorem setOpt_eq (s : MState) (now : Int) (k : Bytes) (value : DsStr.S) (keep :
 def getSetA (key value : Bytes) : DsStr.S → Int → Act := fun old _ =>
   { val := some (.str value), exp := some 0, sig := true, ops := [Api.opSet key value false], out := .bytes old }
 
+/-- GETSET on a key with no visible record: a brand-new record (as in SETNX), reply nil -/
+def getSetNew (s1 : MState) (key value : Bytes) : Api.R :=
+  (emit (signal (Api.setExp (Api.setVal (newKeyWith s1 key none (.str [])) key (.str value)) key 0) key)
+    (Api.opSet key value false), .bytes none)
+
+/-- GETSET: two branches — the key is missing (`getSetNew`), or it is present and the command is a
+    `writeCmd` with a nil constructor -/
 theorem getSet_eq (s : MState) (now : Int) (k value : Bytes) :
-    Api.getSet s now k value = writeCmd (some (.str [])) .unit (actOn strOf (getSetA k value)) s now k := by
-  unfold Api.getSet writeCmd
-  create_eq (Val.str []), strOf [asStr_eq, getSetA]
+    Api.getSet s now k value =
+      if !(writeKey s now k none).2 then getSetNew (writeKey s now k none).1 k value
+      else writeCmd none .unit (actOn strOf (getSetA k value)) s now k := by
+  unfold Api.getSet writeCmd getSetNew
+  cases writeKey s now k none with
+  | mk s1 ok =>
+    cases ok
+    · rfl
+    · simp only [Bool.not_true, Bool.false_eq_true, if_false, actOn, asStr_eq, getSetA]
+      fin_eq strOf
 
 theorem setXX_eq (s : MState) (now : Int) (k value : Bytes) (keep : Bool) :
     Api.setXX s now k value keep =
